@@ -41,6 +41,16 @@ fn main() {
                 std::process::exit(3);
             }
         }
+        "classify" => {
+            let text = std::fs::read_to_string(&args[2]).expect("read case file");
+            let v: Value = serde_json::from_str(&text).expect("case file is JSON");
+            let case = if v.get("replay").is_some() { v["replay"].clone() } else { v.clone() };
+            let c = match case["property"].as_str() {
+                Some("C08") => nqv::props::c08::classify(&case),
+                _ => "other".to_string(),
+            };
+            println!("{c}");
+        }
         "replay" => {
             let text = std::fs::read_to_string(&args[2]).expect("read replay file");
             let v: Value = serde_json::from_str(&text).expect("replay file is JSON");
